@@ -698,3 +698,28 @@ Proof.
   exists {| m_base := 0; m_bytes := (repeatN x00 555 ++ [x08] ++ repeatN x00 228)%list |}, {| t_off := 0; t_meta := None |}.
   vm_compute. split; reflexivity.
 Qed.
+
+(* ---- non-vacuity: a concrete region on which a program reaches every kind of handle ------------------- *)
+Definition c01_example_region : list byte :=
+  [x68; x01; x00; x00; x00; x00; x00; x00; x01; x00; x00; x00; x0b; x00; x00; x00; x68; x69; x00; x00; x00; x00; x00; x00; x03; x00; x00; x00; x12; x00; x00; x00; x01; x00; x00; x00; x09; x00; x00; x00; x6d; x00; x00; x00; x00; x00; x00; x00; x11; x00; x00; x00; x70; x00; x00; x00; x30; x00; x00; x00; x01; x00; x00; x00; x07; x00; x00; x00; x00; x00; x00; x00; x00; x10; x00; x00; x00; x00; x00; x00; x00; x00; x00; x00; x00; x00; x00; x00; x01; x00; x00; x00; x00; x00; x00; x00; x08; x00; x00; x00; x00; x00; x00; x00; xcc; xcc; xcc; xcc; xcc; xcc; xcc; xcc; x04; x00; x00; x00; x00; x00; x00; x00; x01; x00; x00; x00; x00; x00; x00; x00; x02; x00; x00; x00; x00; x00; x00; x00; x03; x00; x00; x00; x00; x00; x00; x00; x04; x00; x00; x00; x00; x00; x00; x00; xdd; xdd; xdd; xdd; xdd; xdd; xdd; xdd; x09; x00; x00; x00; x94; x00; x00; x00; x02; x00; x00; x00; x40; x00; x00; x00; x01; x00; x00; x00; x01; x00; x00; x00; x01; x00; x00; x00; x02; x00; x00; x00; x00; x00; x00; x00; x00; x10; x00; x00; x00; x00; x00; x00; x00; x00; x00; x00; x00; x00; x00; x00; x20; x00; x00; x00; x00; x00; x00; x00; x00; x00; x00; x00; x00; x00; x00; x00; x08; x00; x00; x00; x00; x00; x00; x00; x00; x00; x00; x00; x00; x00; x00; x00; x02; x00; x00; x00; x03; x00; x00; x00; x00; x00; x00; x00; x00; x00; x00; x00; x00; x20; x00; x00; x00; x00; x00; x00; x00; x00; x00; x00; x00; x00; x00; x00; x10; x00; x00; x00; x00; x00; x00; x00; x00; x00; x00; x00; x00; x00; x00; x00; x01; x00; x00; x00; x00; x00; x00; x00; x00; x00; x00; x00; x00; x00; x00; x00; x00; x00; x00; x00; x08; x00; x00; x00; x28; x00; x00; x00; x00; x10; x00; x00; x00; x00; x00; x00; x01; x00; x00; x00; x02; x00; x00; x00; x03; x00; x00; x00; x08; x00; x00; x00; x02; x00; x01; x02; x03; x04; x05; x06; x00; x00; x00; x00; x08; x00; x00; x00].
+
+Definition handle_tag (h : handle) : N :=
+  match h with HBoot _ => 0 | HIter _ _ => 1 | HModIter _ _ => 2 | HGen _ => 3 | HTag _ _ => 4 | HEfiIter _ => 5
+          | HElfIter _ => 6 | HElfSec _ => 7 | HView _ _ => 8 | HVal => 9 end.
+
+Definition c01_example_prog : list (nat * op) :=
+  [ (0, OTags); (1, ONext); (0, OModuleTags); (4, ONext); (0, OEfiMemoryMapTag); (7, OMemoryAreas); (8, ONext);
+    (0, OGetTag KElfSections); (11, OSections); (12, ONext); (14, OSecField 3); (0, OFramebufferTag); (16, OBufferType);
+    (0, OGetTag KCmdline); (18, OStr); (0, ODebug) ]%nat.
+
+Example c01_reaches_every_handle :
+  let m := {| m_base := 4096; m_bytes := c01_example_region |} in
+  match mbi_load Dev false m with
+  | Val r =>
+      match run Dev m [HBoot r] c01_example_prog with
+      | Val pool => forallb (fun t => existsb (fun h => handle_tag h =? t) pool) [0; 1; 2; 3; 4; 5; 6; 7; 8; 9] = true
+      | _ => False
+      end
+  | _ => False
+  end.
+Proof. vm_compute. reflexivity. Qed.
